@@ -96,6 +96,12 @@ def run(ctx):
                          x[2][3][0] == "c" and x[2][3][1] % al == 0 for x in nf) or \
                     any(x[0] == "cmp" and x[1] == "Eq" and x[3] == ("c", 0) and x[2][0] == "bin" and x[2][1] == "BitAnd" and x[2][2] == dsz and
                         x[2][3] == ("c", al - 1) for x in nf)
+            elif key == "base-aligned":
+                # ptr.align_offset(8) == 0, or the address tested directly: (ptr as usize) % 8 == 0 / & 7 == 0
+                def is_addr(x):
+                    return x[0] == "cast" and x[1] in ("PointerExposeProvenance", "PtrToInt") and x[2] == ("asptr", mmap)
+                ok = has(f) or any(x[0] == "cmp" and x[1] == "Eq" and x[3] == ("c", 0) and x[2][0] == "bin" and is_addr(x[2][2]) and
+                                   ((x[2][1] == "BitAnd" and x[2][3] == ("c", al - 1)) or (x[2][1] == "Rem" and x[2][3][0] == "c" and x[2][3][1] % al == 0)) for x in nf)
             else:
                 ok = has(f)
             ctx.check(ok, rule, key, "%s is a fact when the iterator is returned (the failing edge panics)" % text, A.site(),
